@@ -187,9 +187,10 @@ pub trait Check: Sync {
 	fn exhaustive(&self) -> bool {
 		true
 	}
-	/// write the case index to a progress file before each case (needed when a case can abort the process)
+	/// write the case index to a progress file before each case: a case that kills its worker process (stack overflow,
+	/// abort inside the subject) is then reported as a failure of that case, and the shard goes on without it
 	fn track_progress(&self) -> bool {
-		false
+		true
 	}
 	fn max_workers(&self) -> usize {
 		16
